@@ -393,22 +393,25 @@ class TracklistController:
         tl_tracks = []
         max_length = self.core._config["core"]["max_tracklist_length"]
 
-        for track in tracks:
-            if self.get_length() >= max_length:
-                msg = f"Tracklist may contain at most {max_length:d} tracks."
-                raise exceptions.TracklistFull(msg)
+        try:
+            for track in tracks:
+                if self.get_length() >= max_length:
+                    msg = f"Tracklist may contain at most {max_length:d} tracks."
+                    raise exceptions.TracklistFull(msg)
 
-            tl_track = TlTrack(self._next_tlid, track)
-            self._next_tlid = TracklistId(self._next_tlid + 1)
-            if at_position is not None:
-                self._tl_tracks.insert(at_position, tl_track)
-                at_position += 1
-            else:
-                self._tl_tracks.append(tl_track)
-            tl_tracks.append(tl_track)
-
-        if tl_tracks:
-            self._increase_version()
+                tl_track = TlTrack(self._next_tlid, track)
+                self._next_tlid = TracklistId(self._next_tlid + 1)
+                if at_position is not None:
+                    self._tl_tracks.insert(at_position, tl_track)
+                    at_position += 1
+                else:
+                    self._tl_tracks.append(tl_track)
+                tl_tracks.append(tl_track)
+        finally:
+            # Also when TracklistFull interrupts the loop: the tracks added
+            # so far stay in the tracklist, so the change must be announced.
+            if tl_tracks:
+                self._increase_version()
 
         return tl_tracks
 
